@@ -15,6 +15,7 @@ import (
 
 // Engine symbolically executes one harness. A fresh Engine (and smt.Ctx) is used per harness.
 type Engine struct {
+	realFns map[string]bool // functions of /repo executed from their real bodies in this harness
 	scalarObjs []*smt.Term // bases of the single (non-array) objects allocated so far
 	C          *smt.Ctx
 	M          *memCtx
@@ -96,7 +97,7 @@ func newEngine(w *World, h *Harness) *Engine {
 		trusted:       map[string]bool{},
 		ghostCalls:    map[string]int{},
 		nextFn:        1 << 32,
-		usedContracts: map[string]bool{}, usedLoops: map[string]bool{},
+		usedContracts: map[string]bool{}, usedLoops: map[string]bool{}, realFns: map[string]bool{},
 		ifaceAsserts: map[string]types.Type{}, litIDs: map[string]uint64{},
 		smallSet: map[int]bool{}, smallMemo: map[int]bool{}, nonNegSet: map[int]bool{},
 	}
